@@ -182,9 +182,14 @@ def hashObj {H : Type} (e : ClassEntry) (h : List V → H) (a : String → V) : 
 def denoteObj {D : Type} (e : ClassEntry) (d : List V → D) (a : String → V) : D :=
   d ((denoteOf e).map a)
 
+/-- Two lists of the same length whose elements are pairwise `r`-related. -/
+inductive AllRel (r : V → V → Prop) : List V → List V → Prop
+  | nil : AllRel r [] []
+  | cons {a b : V} {l l' : List V} : r a b → AllRel r l l' → AllRel r (a :: l) (b :: l')
+
 /-- `f` gives the same result on lists that are element-wise `r`-related. -/
 def Respects {X : Type} (r : V → V → Prop) (f : List V → X) : Prop :=
-  ∀ l l', List.Forall₂ r l l' → f l = f l'
+  ∀ l l', AllRel r l l' → f l = f l'
 
 end Model
 
